@@ -49,3 +49,7 @@ Lemma grant_ok : forall present valid admin_empty tl,
 Proof.
   intros p v a tl H. destruct p, v, a; try reflexivity; exfalso; specialize (H eq_refl); discriminate H.
 Qed.
+
+(* every routing entry is guarded by exactly the specified conditions of its route (history: setting AND driver) *)
+Lemma gen_cond_ok : cond_ok gen_tables = true.
+Proof. vm_compute. reflexivity. Qed.
